@@ -16,7 +16,7 @@ def setup(ctx):
     ctx.shrinker = cc.shrink_case
     ctx.rule = (
         "(a) exhaustive: all classification graphs with 3 derived quantities, each with 1-2 arguments drawn from "
-        "{plain parameter, assignment-defined parameter, variable, time, the other derived} in 2 declaration orders "
+        "{plain parameter, assignment-defined parameter, variable, time, the other derived}, one declaration order per labelled graph cycling through all six (thorough: all six each) "
         "(thorough: 4 derived, sampled 60000 of 28^4); (b) random contents biased to initial assignments on variables and "
         "parameters chained through derived quantities, rates, surrogates and each other; observed: initial conditions, "
         "Simulator(model).y0, derived-parameter/variable names, get_args at states != initial state and times != 0. "
@@ -55,6 +55,7 @@ def class_graphs(n):
     return itertools.product(*choices_for)
 
 
+PERMS3 = [list(p) for p in itertools.permutations(range(3))]
 QUERIES = [["init"], ["simy0"], ["classes"], ["pvals"], ["args", None, "0"],
            ["args", [["x", "5"]], "3"], ["rhs", [["x", "5"]], "3"], ["call", "3", ["5"]]]
 
@@ -109,7 +110,9 @@ def run(ctx):
     thorough = ctx.tier == "thorough" or not ctx.proof_ok
     batch = []
     for idx, arglists in enumerate(class_graphs(3)):
-        for order in ([0, 1, 2], [2, 1, 0]) if not thorough else itertools.permutations(range(3)):
+        # every labelled graph is enumerated, so one declaration order per graph (cycling through all six) already
+        # meets every (unlabelled graph, order) pair; thorough declares each graph in all six orders
+        for order in ([PERMS3[idx % 6]] if not thorough else PERMS3):
             batch.append({"content": class_content(arglists, list(order)), "queries": QUERIES, "decl_seed": idx, "shape": "class3"})
         if len(batch) >= 4000:
             run_batch(ctx, batch)
